@@ -80,21 +80,51 @@ def rule_a(ctx):
            f'literals accepted for `{opt}` == literals the body handles'
            + (' (one value may be the final else)' if implicit_else else ''), f.loc,
            f'accepted {acc}; handled {sorted(handled)}; unhandled {sorted(missing)}; unknown {sorted(extra)}')
-  # from_dict: decision looked up under id, spec and name
-  gd = idx.func(G + 'base.DNA.from_dict.<locals>._get_decision')
-  t = A.unparse(gd.node, 3000)
-  forms = {'id': 'dict_repr.get(spec.id' in t, 'spec': 'dict_repr.get(spec, ' in t or 'dict_repr.get(spec,' in t,
-           'name': 'dict_repr.get(spec.name' in t}
+  # from_dict: decision looked up under id, spec and name (helper found by what it
+  # does: the nested function that reads the caller's dict)
+  fd = idx.func(G + 'base.DNA.from_dict')
+  dparam = [p for p in A.param_names(fd.node) if p not in ('cls', 'self')][0]
+  cands = [n for n in ast.walk(fd.node) if isinstance(n, ast.FunctionDef) and n is not fd.node and any(
+      A.call_name(c) == f'{dparam}.get' for c in A.calls_in(n))]
+  if len(cands) != 1:
+    raise AnalysisError(f'DNA.from_dict: {len(cands)} nested helpers read {dparam}.get (expected 1)')
+  gd = cands[0]
+  sp = A.param_names(gd)[0]
+  looked = [A.unparse(c.args[0]) for c in A.calls_in(gd) if A.call_name(c) == f'{dparam}.get' and c.args]
+  forms = {'id': f'{sp}.id' in looked, 'spec': sp in looked, 'name': f'{sp}.name' in looked}
   for k, ok in forms.items():
-    ctx.ob('C12.a', f'{gd.fq}#lookup:{k}', ok,
-           f'from_dict finds a decision stored under the `{k}` key form that to_dict can produce', gd.loc,
-           f'no lookup by {k}')
+    ctx.ob('C12.a', f'{fd.fq}#lookup:{k}', ok,
+           f'from_dict finds a decision stored under the `{k}` key form that to_dict can produce',
+           f'{fd.module.relpath}:{gd.lineno}', f'no lookup by {k} (lookups: {looked})')
   # to_dict key forms
-  kf = idx.func(G + 'base.DNA.to_dict.<locals>._key')
-  t = A.unparse(kf.node, 2000)
-  ok = 'spec.id.path' in t and 'spec.name if spec.name else spec.id.path' in t and 'return spec' in t
-  ctx.ob('C12.a', kf.fq, ok, 'to_dict keys are id path / name-or-id / the spec itself', kf.loc,
-         'key construction changed')
+  td = idx.func(G + 'base.DNA.to_dict')
+  def key_forms(fn):
+    if not A.param_names(fn):
+      return set()
+    q = A.param_names(fn)[0]
+    out = set()
+    for r in ast.walk(fn):
+      if isinstance(r, ast.Return) and r.value is not None:
+        v = r.value
+        t = A.unparse(v)
+        if t == f'{q}.id.path':
+          out.add('id')
+        elif t == q:
+          out.add('spec')
+        elif (isinstance(v, ast.IfExp) and A.unparse(v.test) == f'{q}.name' and A.unparse(v.body) == f'{q}.name'
+              and A.unparse(v.orelse) == f'{q}.id.path') or \
+             (isinstance(v, ast.BoolOp) and isinstance(v.op, ast.Or) and [A.unparse(x) for x in v.values] == [f'{q}.name', f'{q}.id.path']):
+          out.add('name_or_id')
+        else:
+          out.add('other:' + t)
+    return out
+  kcands = [n for n in ast.walk(td.node) if isinstance(n, ast.FunctionDef) and n is not td.node and 'id' in key_forms(n)]
+  if len(kcands) != 1:
+    raise AnalysisError(f'DNA.to_dict: {len(kcands)} nested helpers build keys (expected 1)')
+  kf = key_forms(kcands[0])
+  ctx.ob('C12.a', td.fq + '#key-forms', kf == {'id', 'name_or_id', 'spec'},
+         'to_dict keys are id path / name-or-id / the spec itself', f'{td.module.relpath}:{kcands[0].lineno}',
+         f'key forms are {sorted(kf)}')
 
 
 def rule_b(ctx):
@@ -130,22 +160,37 @@ def rule_b(ctx):
 def rule_c(ctx):
   idx = ctx.index
   fd = idx.func(G + 'base.DNA.from_dict')
-  rets = [A.unparse(r.value) for r in fd.node.body if isinstance(r, ast.Return)]
-  ctx.ob('C12.c', fd.fq, rets == ['dna.use_spec(dna_spec)'], 'from_dict returns the DNA bound to the spec',
+  rvals = [r.value for r in fd.node.body if isinstance(r, ast.Return)]
+  rets = [A.unparse(r) for r in rvals]
+  spec_param = [p for p in A.param_names(fd.node) if 'spec' in p][:1]
+  ok = len(rvals) == 1 and isinstance(rvals[0], ast.Call) and isinstance(rvals[0].func, ast.Attribute) \
+      and rvals[0].func.attr == 'use_spec' and [A.unparse(a) for a in rvals[0].args] == spec_param
+  ctx.ob('C12.c', fd.fq, ok, 'from_dict returns the DNA bound to the spec',
          fd.loc, f'returns {rets}')
   fn = idx.func(G + 'base.DNA.from_numbers.<locals>._bind_decisions')
-  rets = [A.unparse(r.value) for r in ast.walk(fn.node) if isinstance(r, ast.Return)]
-  ctx.ob('C12.c', fn.fq, rets == ['DNA(value, children, spec=dna_spec)'],
+  rvals = [r.value for r in ast.walk(fn.node) if isinstance(r, ast.Return)]
+  rets = [A.unparse(r) for r in rvals]
+  own_spec = A.param_names(fn.node)[0]
+  ok = bool(rvals) and all(isinstance(r, ast.Call) and A.call_name(r) == 'DNA'
+                           and any(k.arg == 'spec' and A.unparse(k.value) == own_spec for k in r.keywords) for r in rvals)
+  ctx.ob('C12.c', fn.fq, ok,
          'from_numbers builds every node with spec=<the spec of its position>', fn.loc, f'returns {rets}')
   cl = idx.func(G + 'base.DNA._sym_clone')
-  ok = any(isinstance(n, ast.Assign) and A.unparse(n.targets[0]) == 'other._spec'
+  clone_locals = {nm for st in ast.walk(cl.node) if isinstance(st, ast.Assign) and isinstance(st.value, ast.Call)
+                  and (A.call_name(st.value) or '').endswith('_sym_clone') for nm in A.assigned_names(st.targets[0])}
+  ok = any(isinstance(n, ast.Assign) and isinstance(n.targets[0], ast.Attribute) and n.targets[0].attr == '_spec'
+           and isinstance(n.targets[0].value, ast.Name) and n.targets[0].value.id in clone_locals
            and A.unparse(n.value) == 'self._spec' for n in ast.walk(cl.node))
   ctx.ob('C12.c', cl.fq, ok, 'a cloned DNA keeps the spec binding', cl.loc, '_spec not copied')
   for meth in ('first_dna', 'next_dna', 'random_dna'):
     f = idx.func(G + 'base.DNASpec.' + meth)
     d = A.params_with_defaults(f.node).get('attach_spec')
-    t = A.unparse(f.node, 3000)
-    ok = isinstance(d, ast.Constant) and d.value is True and ('dna.use_spec(self)' in t or 'self.next_dna(None, attach_spec)' in t)
+    binds_here = any(isinstance(c.func, ast.Attribute) and c.func.attr == 'use_spec' and isinstance(c.func.value, ast.Name)
+                     and [A.unparse(a) for a in c.args] == ['self'] for c in A.calls_in(f.node))
+    delegates = any((A.call_name(c) or '') in ('self.next_dna', 'self.first_dna', 'self.random_dna')
+                    and any(A.unparse(a) == 'attach_spec' for a in list(c.args) + [k.value for k in c.keywords])
+                    for c in A.calls_in(f.node))
+    ok = isinstance(d, ast.Constant) and d.value is True and (binds_here or delegates)
     ctx.ob('C12.c', f.fq, ok, f'{meth} binds the produced DNA to the spec by default', f.loc,
            'attach_spec default / use_spec changed')
   # use_spec stores the spec after the checks on every normal path
@@ -171,10 +216,35 @@ def rule_c(ctx):
          f'{len(stores)} stores of self._spec, {len(early_store)} reachable before the dispatch: a node can '
          f'be re-labelled while its descendants stay bound to the old position')
   # child specs: each child is bound to the spec of its own position
-  t = A.unparse(us.node, 20000)
-  ok = 'child.use_spec(subchoice)' in t and 'spec.subchoice(i)' in t and 'self.children[i].use_spec(elem_spec)' in t
-  ctx.ob('C12.c', us.fq + '#children', ok,
-         'use_spec binds child i to subchoice(i) / element i of the spec', us.loc, 'child binding changed')
+  # index consistency, whatever the locals are called: in every
+  # `for i, e in enumerate(...)` loop that binds children, either the child IS e
+  # and its spec is <spec>.subchoice(i), or the child is <children>[i] and its spec is e
+  problems = []
+  nloops = 0
+  for lp in [n for n in ast.walk(us.node) if isinstance(n, ast.For)]:
+    if not (isinstance(lp.iter, ast.Call) and A.call_name(lp.iter) == 'enumerate' and isinstance(lp.target, ast.Tuple)
+            and len(lp.target.elts) == 2 and all(isinstance(e, ast.Name) for e in lp.target.elts)):
+      continue
+    iv, ev = lp.target.elts[0].id, lp.target.elts[1].id
+    binds = [c for c in A.calls_in(lp) if isinstance(c.func, ast.Attribute) and c.func.attr == 'use_spec' and c.args]
+    if not binds:
+      continue
+    nloops += 1
+    for c in binds:
+      recv, arg = c.func.value, c.args[0]
+      if isinstance(arg, ast.Name) and arg.id != ev:
+        ds = [v for st in ast.walk(lp) if isinstance(st, ast.Assign) and A.assigned_names(st.targets[0]) == [arg.id]
+              for v in [st.value]]
+        arg = ds[0] if len(ds) == 1 else arg
+      caseA = isinstance(recv, ast.Name) and recv.id == ev and isinstance(arg, ast.Call) \
+          and isinstance(arg.func, ast.Attribute) and arg.func.attr == 'subchoice' \
+          and len(arg.args) == 1 and A.unparse(arg.args[0]) == iv
+      caseB = isinstance(recv, ast.Subscript) and A.unparse(recv.slice) == iv and isinstance(arg, ast.Name) and arg.id == ev
+      if not (caseA or caseB):
+        problems.append(f'line {c.lineno}: `{A.unparse(c, 70)}` does not pair child {iv} with spec {iv}')
+  ctx.ob('C12.c', us.fq + '#children', nloops >= 3 and not problems,
+         'use_spec binds child i to subchoice(i) / element i of the spec', us.loc,
+         '; '.join(problems) or f'only {nloops} child-binding loops found')
 
 
 def rule_e(ctx):
@@ -202,8 +272,16 @@ def rule_e(ctx):
          'a transformed value is printed: ' + ', '.join(bad) + ': from_dict rejects (or mis-reads) the '
          'view of a DNA produced by to_dict')
   ci = idx.func(G + 'categorical.Choices.candidate_index')
-  t = A.unparse(ci.node, 9000)
-  ok = 'literal != str(self.literal_values[index])' in t and '_CHOICE_AND_LITERAL_REGEX.match' in t
+  def is_str_of_literal(e):
+    return isinstance(e, ast.Call) and A.call_name(e) == 'str' and len(e.args) == 1 \
+        and isinstance(e.args[0], ast.Subscript) and A.unparse(e.args[0].value) in ('self.literal_values', 'self._literal_values') \
+        and isinstance(e.args[0].slice, ast.Name)
+  cmp_ok = any(isinstance(c, ast.Compare) and len(c.ops) == 1 and isinstance(c.ops[0], (ast.NotEq, ast.Eq))
+               and ((isinstance(c.left, ast.Name) and is_str_of_literal(c.comparators[0]))
+                    or (isinstance(c.comparators[0], ast.Name) and is_str_of_literal(c.left)))
+               for c in ast.walk(ci.node))
+  parses = any(isinstance(c.func, ast.Attribute) and c.func.attr in ('match', 'fullmatch') for c in A.calls_in(ci.node))
+  ok = cmp_ok and parses
   ctx.ob('C12.e', ci.fq, ok,
          'candidate_index compares the parsed literal with str(literal_values[index])', ci.loc,
          'literal comparison changed')
@@ -296,7 +374,11 @@ def rule_f(ctx):
       for cl in k.calls():
         if (A.call_name(cl) or '').endswith('ConditionalKey'):
           args = [A.unparse(a) for a in cl.args]
-          if args != ['self.index', 'len(parent.candidates)']:
+          parent_locals = {nm for st2 in ast.walk(f.node) if isinstance(st2, ast.Assign)
+                           and A.unparse(st2.value) in ('self.parent_spec', 'self._parent_spec')
+                           for nm in A.assigned_names(st2.targets[0])} | {'self.parent_spec'}
+          if not (len(args) == 2 and args[0] == 'self.index'
+                  and args[1] in {f'len({pl}.candidates)' for pl in parent_locals}):
             problems.append(f'conditional key built from {args}')
   ctx.ob('C12.f', f.fq, not problems,
          'the id of a sub-space always contains the conditional key of its position under the parent choice', f.loc,
